@@ -97,3 +97,138 @@ def oracle_c01(ep):
         if abs(an("del", "an") - (an("del", "grid_an") + an("del", "onst_an") + an("del", "cgn_an"))) > tola:
             bad.append(("annual: delivered != grid + onsite + cogen input", {"carrier": cr}))
     return bad
+
+
+def flat_ep(ep):
+    return {k: v for k, v in core.flatten(ep).items()
+            if k.startswith(core.NUMERIC_EP_PREFIXES) and isinstance(v, Fraction)}
+
+
+def ep_scale(fl):
+    s = Fraction(1)
+    for k, v in fl.items():
+        if k.startswith("balance/") or k.startswith("balance_cr/"):
+            s = max(s, abs(v))
+    return s
+
+
+def oracle_c12(case, i, ep):
+    """priority allocation and load matching factor on one evaluation; lm monotonicity across
+    evaluations of the same case that differ only in load matching"""
+    bad = []
+    k, area, lm = case.evals[i]
+    for cr, b in ep["balance_cr"].items():
+        sc = carrier_scale(b)
+        tol = _tol(sc)
+        n = len(b["f_match"])
+        u = _vec(b["used"]["epus_t"])
+        p = _vec(b["prod"]["t"])
+        f = _vec(b["f_match"])
+        for t in range(n):
+            if not lm:
+                if f[t] != 1:
+                    bad.append(("f_match != 1 without load matching", {"carrier": cr, "step": t, "f": core.fstr(f[t])}))
+            else:
+                if u[t] > 0 and p[t] > 0:
+                    x = p[t] / u[t]
+                    want = (x + 1 / x - 1) / (x + 1 / x)
+                else:
+                    want = Fraction(1)
+                if abs(f[t] - want) > Fraction(1, 10000):
+                    bad.append(("f_match differs from (x+1/x-1)/(x+1/x)", {"carrier": cr, "step": t, "f": core.fstr(f[t]),
+                                                                        "expected": core.fstr(want)}))
+            if f[t] < Fraction(1, 2) - Fraction(1, 10000) or f[t] > 1 + Fraction(1, 10000):
+                bad.append(("f_match outside [0.5, 1]", {"carrier": cr, "step": t, "f": core.fstr(f[t])}))
+        bs = b["prod"]["by_src_t"]
+        if cr == "ELECTRICIDAD" and "EL_INSITU" in bs and "EL_COGEN" in bs:
+            pv = _vec(bs["EL_INSITU"])
+            chp = _vec(bs["EL_COGEN"])
+            upv = _vec(b["prod"]["epus_by_src_t"]["EL_INSITU"])
+            uchp = _vec(b["prod"]["epus_by_src_t"]["EL_COGEN"])
+            for t in range(n):
+                m_pv = min(pv[t], u[t])
+                m_chp = min(chp[t], u[t] - m_pv)
+                d = {"step": t, "u": core.fstr(u[t]), "pv": core.fstr(pv[t]), "chp": core.fstr(chp[t]),
+                     "used_pv": core.fstr(upv[t]), "used_chp": core.fstr(uchp[t]), "f": core.fstr(f[t])}
+                if abs(upv[t] - f[t] * m_pv) > tol:
+                    bad.append(("on-site electricity not allocated first: used_pv != f*min(pv,u)", d))
+                if abs(uchp[t] - f[t] * m_chp) > tol:
+                    bad.append(("cogenerated electricity allocation != f*min(chp, u - min(pv,u))", d))
+                if uchp[t] > tol and m_pv < pv[t] - tol:
+                    bad.append(("cogenerated electricity used before on-site production is exhausted", d))
+                if upv[t] + uchp[t] > u[t] + tol:
+                    bad.append(("allocations exceed EPB use", d))
+    # monotonicity in load matching
+    if lm:
+        for i0, (k0, a0, lm0) in enumerate(case.evals):
+            if not lm0 and k0 == k and a0 == area:
+                ev0 = case.impl["evals"][i0].get("ep", {})
+                if "ok" not in ev0:
+                    continue
+                for cr, b in ep["balance_cr"].items():
+                    b0 = ev0["ok"]["balance_cr"].get(cr)
+                    if not b0:
+                        continue
+                    tol = _tol(carrier_scale(b))
+                    us1, us0 = _vec(b["prod"]["epus_t"]), _vec(b0["prod"]["epus_t"])
+                    dg1, dg0 = _vec(b["del"]["grid_t"]), _vec(b0["del"]["grid_t"])
+                    for t in range(len(us1)):
+                        if us1[t] > us0[t] + tol:
+                            bad.append(("load matching increased the produced energy used on site", {"carrier": cr, "step": t}))
+                        if dg1[t] < dg0[t] - tol:
+                            bad.append(("load matching decreased the energy delivered by the grid", {"carrier": cr, "step": t}))
+                break
+    return bad
+
+
+KDEP = ("/we/b/", "/we/b_by_srv/", "/we/exp/")
+
+
+def oracle_c03(case, i, ep):
+    """B(k) = A + k (B(1) - A); flows and step A independent of k. Evaluated once per case (on eval 0)
+    over all evaluations that share area and load matching."""
+    bad = []
+    if i != 0:
+        return bad
+    groups = {}
+    for j, (k, a, lm) in enumerate(case.evals):
+        ev = case.impl["evals"][j].get("ep", {})
+        if "ok" in ev:
+            groups.setdefault((a, lm), []).append((Fraction(core.f32_round(k)), flat_ep(ev["ok"])))
+    for (a, lm), lst in groups.items():
+        by_k = {k: fl for k, fl in lst}
+        if 0 not in by_k or 1 not in by_k:
+            continue
+        f0, f1 = by_k[0], by_k[1]
+        sc = ep_scale(f0)
+        for k, fk in lst:
+            for path, v in fk.items():
+                tol = _tol(sc / (a if path.startswith("balance_m2/") and a > 0 else 1))
+                tol = max(tol, _tol(sc))
+                if path.startswith("rer") or path == "k_exp":
+                    continue
+                if any(x in "/" + path for x in ("/we/b/", "/we/b_by_srv/")):
+                    pa = path.replace("/we/b/", "/we/a/").replace("/we/b_by_srv/", "/we/a_by_srv/")
+                    if pa not in f0 or path not in f1:
+                        bad.append(("step B entry without step A / k=1 counterpart", {"path": path}))
+                        continue
+                    want = f0[pa] + k * (f1[path] - f0[pa])
+                    if abs(v - want) > tol:
+                        bad.append(("step B is not A + k*(B(1)-A)", {"path": path, "k": core.fstr(k), "value": core.fstr(v),
+                                                                     "expected": core.fstr(want)}))
+                    if k == 0 and abs(v - f0[pa]) > tol:
+                        bad.append(("k_exp = 0 does not report step A", {"path": path}))
+                elif "/we/exp/" in "/" + path:
+                    continue
+                else:
+                    if path not in f0 or abs(v - f0[path]) > tol:
+                        bad.append(("k-independent quantity changes with k_exp", {"path": path, "k": core.fstr(k),
+                                                                                 "value": core.fstr(v), "at_k0": core.fstr(f0.get(path))}))
+            # no export => identical
+        exp_total = f0.get("balance/exp/an", Fraction(0))
+        if exp_total == 0:
+            for k, fk in lst:
+                for path in ("balance/we/b/0", "balance/we/b/1", "balance/we/b/2"):
+                    if abs(fk[path] - f0[path]) > _tol(sc):
+                        bad.append(("no export but result depends on k_exp", {"path": path}))
+    return bad
